@@ -403,7 +403,11 @@ fn list_event(kind: u32, addr: usize, _aux: usize) {
     }
 }
 
-pub fn exec_c18(_prop: &str, v: &Value) -> Report {
+pub fn exec_c18(prop: &str, v: &Value) -> Report {
+    if v.get("align").is_some() {
+        // registry-churn family: the real participant registry under thread exits
+        return crate::ebrworld::exec(prop, v);
+    }
     let case: LCase = serde_json::from_value(v.clone()).expect("bad LCase");
     let n = case.threads.len().max(1);
     circ::verif::set_event_hook(Some(list_event));
